@@ -223,8 +223,10 @@ func c20Alphabet(thorough bool) []string {
 // c20DetachedDriver: entity [2] exists as an object of the device but is added to it only by the operation
 // attach:e2 — use cases declared before that count like any other (registry and what a peer reads).
 func c20DetachedDriver() *engine.HDriver {
+	// rmentity:e2 is the remove-all path of the registry through DeviceLocal.RemoveEntity; it is used on the entity while it
+	// is attached, before it ever was, and again through the handle the application still holds after a removal.
 	alpha := []string{"add:e2:a1:u1:1.0.0:t:12", "add:e2:a1:u2:1.0.0:f:1", "remove:e2:a1:u1", "avail:e2:a1:u1:f", "removeall:e2", "attach:e2",
-		"add:e1:a1:u1:1.0.0:t:12", "remove:e1:a1:u1"}
+		"add:e1:a1:u1:1.0.0:t:12", "remove:e1:a1:u1", "rmentity:e2"}
 	return &engine.HDriver{Name: "use-cases-declared-before-AddEntity", Alphabet: alpha,
 		Step: func(hist []string, op string) engine.HStep {
 			u := newUCWorldDetached(false, "e2")
@@ -241,7 +243,7 @@ func c20DetachedDriver() *engine.HDriver {
 				u.model(op)
 				rt.WaitIdle()
 				st.Violations = u.judge(op)
-				st.Effect = before != u.refDump() || op == "attach:e2"
+				st.Effect = before != u.refDump() || op == "attach:e2" || op == "rmentity:e2"
 				st.Digest = strings.Split(op, ":")[0] + fmt.Sprint(st.Effect)
 			}
 			_, reply, _ := u.observe()
